@@ -112,8 +112,10 @@ def projectOracles (p : Project) (cfg : Gn.Config) (a : Analysis) (implFiles : J
       let insideOk : Bool :=
         if cfg.zod then
           -- every `XSchema` mentioned is a defined constant
+          -- every `XSchema` mentioned is a defined constant (or a declared type whose own name ends in `Schema`)
           let consts := (ex.filter fun e => e.1 = cl!"const").map (·.2)
-          ((idents ts).filter fun i => endsWithS i cl!"Schema").all fun i => consts.contains i
+          let tnames := (ex.filter fun e => e.1 = cl!"interface" || e.1 = cl!"type").map (·.2)
+          ((idents ts).filter fun i => endsWithS i cl!"Schema").all fun i => consts.contains i || tnames.contains i
         else
           let typeNames := (ex.filter fun e => e.1 = cl!"interface" || e.1 = cl!"type").map (·.2)
           (statements ts).all fun st =>
